@@ -720,6 +720,18 @@ impl ActorCell {
         self.inner.verif_admission_word()
     }
 
+    /// `kill()` that reports whether the signal port accepted the signal (verification hook)
+    #[cfg(feature = "verif")]
+    pub fn verif_kill(&self) -> bool {
+        self.inner.send_signal(Signal::Kill).is_ok()
+    }
+
+    /// `stop(reason)` that reports whether the stop port accepted the message (verification hook)
+    #[cfg(feature = "verif")]
+    pub fn verif_stop(&self, reason: Option<String>) -> bool {
+        self.inner.send_stop(reason).is_ok()
+    }
+
     // ================== Test Utilities ================== //
 
     #[cfg(test)]
